@@ -53,6 +53,8 @@ class Ctx(object):
         self.nq = 0
         self.tq = 0.0
         self.unknown = 0
+        self.model = None
+        self.known = {}
 
     def _check(self, *extra):
         t = time.time()
@@ -65,35 +67,51 @@ class Ctx(object):
 
     def add(self, c):
         self.solver.add(c)
+        self.model = None
+
+    def _model(self):
+        """a model of the current path condition (kept valid incrementally)"""
+        if self.model is None:
+            r = self._check()
+            if r == z3.unsat:
+                raise Prune()
+            if r == z3.unknown:
+                raise Unsupported("solver unknown on path condition")
+            self.model = self.solver.model()
+        return self.model
+
+    def _holds_in_model(self, cond):
+        v = self._model().eval(cond, model_completion=True)
+        return z3.is_true(v)
 
     def decide(self, cond):
+        key = cond.get_id()
+        if key in self.known:
+            return self.known[key]
         i = len(self.taken)
         if i < self.nfix:
             d = self.decisions[i]
             if isinstance(d, tuple):
                 raise RuntimeError("schedule mismatch (expected bool decision)")
             self.solver.add(cond if d else z3.Not(cond))
+            if self.model is not None and self._holds_in_model(cond) != d:
+                self.model = None
             if i == self.nfix - 1:
-                r = self._check()
-                if r == z3.unsat:
-                    raise Prune()
-                if r == z3.unknown:
-                    raise Unsupported("solver unknown on path condition")
+                self.model = None
+                self._model()          # prunes if the flipped branch is infeasible
             self.taken.append(d)
             self.free.append(False)
+            self.known[key] = d
             return d
-        rt = self._check(cond)
-        rf = self._check(z3.Not(cond))
-        if rt == z3.unknown or rf == z3.unknown:
+        d = self._holds_in_model(cond)          # this direction is feasible: the model witnesses it
+        other = z3.Not(cond) if d else cond
+        ro = self._check(other)
+        if ro == z3.unknown:
             raise Unsupported("solver unknown on branch condition")
-        can_t = rt == z3.sat
-        can_f = rf == z3.sat
-        if not can_t and not can_f:
-            raise Prune()
-        d = can_t
         self.taken.append(d)
-        self.free.append(can_t and can_f)
+        self.free.append(ro == z3.sat)
         self.solver.add(cond if d else z3.Not(cond))
+        self.known[key] = d
         return d
 
     def realize(self, z):
@@ -111,26 +129,22 @@ class Ctx(object):
                 k, eq = d
                 self.taken.append(d)
                 self.free.append(False)
+                self.model = None
                 if eq:
                     self.solver.add(z == k)
-                    if i == self.nfix - 1 and self._check() != z3.sat:
-                        raise Prune()
+                    if i == self.nfix - 1:
+                        self._model()
                     return k
                 self.solver.add(z != k)
-                if i == self.nfix - 1 and self._check() != z3.sat:
-                    raise Prune()
+                if i == self.nfix - 1:
+                    self._model()
                 continue
-            r = self._check()
-            if r == z3.unsat:
-                raise Prune()
-            if r == z3.unknown:
-                raise Unsupported("solver unknown while realising")
-            mv = self.solver.model().eval(z, model_completion=True)
+            mv = self._model().eval(z, model_completion=True)
             k = mv.as_long() if z3.is_int_value(mv) else mv.as_signed_long()
             self.taken.append((k, True))
             # the sibling (z != k) is always scheduled; it is pruned if infeasible
             self.free.append(True)
-            self.solver.add(z == k)
+            self.solver.add(z == k)      # the model still satisfies the path condition
             return k
 
 
@@ -743,11 +757,19 @@ def explore(harness, theory="int", max_paths=20000, max_seconds=120, expected_ex
                         break
                 elif r == z3.unknown:
                     res.inconclusive = "unknown on exception path"
+            pending = []
             for name, cz in ctx.checks:
                 res.checks += 1
                 zs = z3.simplify(cz)
                 if z3.is_true(zs):
                     continue
+                pending.append((name, cz))
+            if len(pending) > 1:
+                # one query for the conjunction; the obligations are examined one by one only if it can fail
+                rall = ctx._check(z3.Not(z3.And(*[cz for _, cz in pending])))
+                if rall == z3.unsat:
+                    pending = []
+            for name, cz in pending:
                 r = ctx._check(z3.Not(cz))
                 if r == z3.sat:
                     m = ctx.solver.model()
